@@ -146,7 +146,7 @@ func lemmaStructuralTokens(op lex.TokType) {}
 //@   pure
 //@   requires len(p.nonTerminals) >= 1 && NonTerm(p.nonTerminals[len(p.nonTerminals)-1].Typ) && lex.KnownTyp(next.Typ) && next.Typ != lex.TStart
 //@   ensures  result == ShiftSpec(p.nonTerminals[len(p.nonTerminals)-1].Typ, next.Typ)
-//@   lemma table before "return lex.HasLessPrecedence(curr, next)": if IsOp(curr.Typ) && IsOp(next.Typ) { lemmaPrecedenceTable(curr.Typ, next.Typ) }; if IsOp(curr.Typ) { lemmaStructuralTokens(curr.Typ) }; if IsOp(next.Typ) { lemmaStructuralTokens(next.Typ) }
+//@   lemma table before "lex.HasLessPrecedence(curr, next)": if IsOp(curr.Typ) && IsOp(next.Typ) { lemmaPrecedenceTable(curr.Typ, next.Typ) }; if IsOp(curr.Typ) { lemmaStructuralTokens(curr.Typ) }; if IsOp(next.Typ) { lemmaStructuralTokens(next.Typ) }
 
 // IsDecimalInt / DecimalInt: the word is a base-10 integer as strconv.Atoi reads it.
 func IsDecimalInt(s string) bool { _, err := strconv.Atoi(s); return err == nil }
@@ -215,12 +215,12 @@ func RInv(p *parser, top []any) bool {
 //@   loop 1: invariant[elems]  reduce.ElemsOK(p.stack)
 //@   loop 1: invariant[nts]    NTsOK(p.nonTerminals)
 //@   loop 1: invariant[tokens] len(p.nonTerminals) >= 1 && len(p.nonTerminals) == 1+reduce.NTok(p.stack, len(p.stack))
-//@   ghost stackLen0 before "for !p.shouldShift(implAnd)": len(p.stack)
-//@   ghost remaining0 before "for !p.shouldShift(implAnd)": lex.Remaining(p.lex)
+//@   ghost stackLen0 before "p.shouldShift(implAnd)": len(p.stack)
+//@   ghost remaining0 before "p.shouldShift(implAnd)": lex.Remaining(p.lex)
 //@   loop 1: invariant[progress] len(p.stack) <= stackLen0 && lex.Remaining(p.lex) == remaining0
 //@   loop 1: decreases len(p.stack)
-//@   lemma leaf before "if final.Op == expr.Literal": expr.LemmaParsedLeaf(final)
-//@   lemma scoped before "final = expr.Expr(p.defaultField, expr.Equals, final.Left)": expr.LemmaDefaultFieldTerm(p.defaultField, final.Left)
+//@   lemma leaf before "final.Op == expr.Literal": expr.LemmaParsedLeaf(final)
+//@   lemma scoped before "expr.Expr(p.defaultField, expr.Equals, final.Left)": expr.LemmaDefaultFieldTerm(p.defaultField, final.Left)
 //@   lemma pushand before "p.stack = append(p.stack, implAnd)": reduce.LemmaNTokPrefix(append(p.stack, implAnd), p.stack, len(p.stack))
 //@   lemma pushlit before "p.stack = append(p.stack, lit)": reduce.LemmaNTokPrefix(append(p.stack, lit), p.stack, len(p.stack)); expr.LemmaLeafParsed(reduce.E(lit))
 //@   lemma pushtok before "p.stack = append(p.stack, tok)": reduce.LemmaNTokPrefix(append(p.stack, tok), p.stack, len(p.stack))
@@ -245,7 +245,7 @@ func UsesFuzzyOrBoost(e *expr.Expression) bool {
 //@   ensures  (err == nil) != (e == nil)
 //@   ensures  err == nil ==> expr.ShapeV(e) && expr.ShapeP(e)
 //@   loop 0: rangeinv PInv(p)
-//@   lemma wf before "err = expr.Validate(ex)": expr.LemmaParsedWF(ex)
+//@   lemma wf before "expr.Validate(ex)": expr.LemmaParsedWF(ex)
 
 // ---- the public wrappers ----------------------------------------------------------------------------
 
@@ -260,7 +260,7 @@ func UsesFuzzyOrBoost(e *expr.Expression) bool {
 //@   assumes  driver.Builtin(postgres.Base) && driver.RangAt(postgres.Base) && !driver.Registered(postgres.Base, expr.Fuzzy) && !driver.Registered(postgres.Base, expr.Boost)
 //@   ensures[error-means-empty] result1 != nil ==> result0 == ""
 //@   ensures[fuzzy-and-boost-are-refused] UsesFuzzyOrBoost(ParsedTree(in, opts)) ==> result1 != nil
-//@   lemma renderable before "return postgres.Render(e)": driver.LemmaParsedRenderable(e); if driver.HasOp(e, expr.Fuzzy) { driver.LemmaUnregisteredFails(postgres.Base, e, expr.Fuzzy) }; if driver.HasOp(e, expr.Boost) { driver.LemmaUnregisteredFails(postgres.Base, e, expr.Boost) }
+//@   lemma renderable before "postgres.Render(e)": driver.LemmaParsedRenderable(e); if driver.HasOp(e, expr.Fuzzy) { driver.LemmaUnregisteredFails(postgres.Base, e, expr.Fuzzy) }; if driver.HasOp(e, expr.Boost) { driver.LemmaUnregisteredFails(postgres.Base, e, expr.Boost) }
 
 //@ func ToParameterizedPostgres
 //@   props C10 C01 C13
@@ -268,7 +268,7 @@ func UsesFuzzyOrBoost(e *expr.Expression) bool {
 //@   assumes  driver.Builtin(postgres.Base) && driver.RangAt(postgres.Base) && !driver.Registered(postgres.Base, expr.Fuzzy) && !driver.Registered(postgres.Base, expr.Boost)
 //@   ensures[error-means-empty] err != nil ==> s == ""
 //@   ensures[fuzzy-and-boost-are-refused] UsesFuzzyOrBoost(ParsedTree(in, opts)) ==> err != nil
-//@   lemma renderable before "return postgres.RenderParam(e)": driver.LemmaParsedRenderable(e); if driver.HasOp(e, expr.Fuzzy) { driver.LemmaUnregisteredFailsParam(postgres.Base, e, expr.Fuzzy) }; if driver.HasOp(e, expr.Boost) { driver.LemmaUnregisteredFailsParam(postgres.Base, e, expr.Boost) }
+//@   lemma renderable before "postgres.RenderParam(e)": driver.LemmaParsedRenderable(e); if driver.HasOp(e, expr.Fuzzy) { driver.LemmaUnregisteredFailsParam(postgres.Base, e, expr.Fuzzy) }; if driver.HasOp(e, expr.Boost) { driver.LemmaUnregisteredFailsParam(postgres.Base, e, expr.Boost) }
 
 // imports used by the directive comments only
 var (
